@@ -38,6 +38,24 @@ RELDAY = [
     ("eom", "ruleEOM"),
     ("eoy", "ruleEOY"),
 ]
+# Surface forms the property statement itself names ("today / tomorrow / the day after tomorrow / ... (English and German forms)"):
+# they belong to the tested language whether or not a rule pattern of the tree under test offers them.
+SPEC_FORMS = {
+    "today": ("today", "heute"),
+    "now": ("now", "jetzt"),
+    "tomorrow": ("tomorrow", "morgen"),
+    "aftertomorrow": ("day after tomorrow", "the day after tomorrow", "übermorgen"),
+    "yesterday": ("yesterday", "gestern"),
+    "beforeyesterday": ("day before yesterday", "the day before yesterday", "vorgestern"),
+    "eom": ("end of month", "end of the month", "end of this month", "ende des monats", "ende dieses monats", "monatsende"),
+    "eoy": ("end of year", "end of the year", "end of this year", "ende des jahres", "ende dieses jahres", "jahresende"),
+}
+
+
+def _spec_dows(wd):
+    return (vocab.EN_DOW[wd], vocab.EN_DOW[wd] + "s", vocab.DE_DOW[wd], vocab.DE_DOW[wd] + "s")
+
+
 TODS_QUICK = [time(12, 43)]
 TODS_THOROUGH = [time(0, 0), time(12, 43), time(23, 59, 59, 999999)]
 
@@ -74,12 +92,12 @@ def _forms(tier):
     allf = []
     canonf = []
     for kind, rn in RELDAY:
-        alts = vocab.lang(rn)
+        alts = tuple(dict.fromkeys(tuple(vocab.lang(rn)) + SPEC_FORMS[kind]))
         for a in alts:
             allf.append((kind, a, None, a))
         # canonical: first English-looking and first German-looking alternative are both in `alts`;
         # take first and last alternative (pattern order is DE...EN for these rules)
-        for a in dict.fromkeys((alts[0], alts[-1])):
+        for a in dict.fromkeys((alts[0], alts[-1]) + SPEC_FORMS[kind][:2] + SPEC_FORMS[kind][-1:]):
             canonf.append((kind, a, None, a))
     at = vocab.lang("ruleAtDOW")
     nxt = vocab.lang("ruleNextDOW")
@@ -88,6 +106,7 @@ def _forms(tier):
     c_nxt = vocab.canon(nxt, ("next",))
     c_nw = vocab.canon(nw, ("next week",))
     for wd, alts in vocab.dows():
+        alts = tuple(dict.fromkeys(tuple(alts) + _spec_dows(wd)))
         c_en = vocab.canon(alts, (vocab.EN_DOW[wd],))
         c_de = vocab.canon(alts, (vocab.DE_DOW[wd],))
         cans = list(dict.fromkeys((c_en, c_de)))
